@@ -54,15 +54,50 @@ pub struct Output {
     pub sig: String,
     /// diagnostics as "Level: message @lo..hi" with file-relative positions
     pub diags: Vec<String>,
+    /// every span of the output AST in traversal order, file-relative (`d` for the dummy span, `p` for
+    /// a `dummy_with_cmt` position, `F` for a position outside this file), as "count:fingerprint" -
+    /// what a host's source map is made from
+    #[serde(default)]
+    pub spans: String,
 }
 
 #[derive(Default)]
 struct Sig {
     ctxts: Vec<SyntaxContext>,
     out: String,
+    file: (u32, u32),
+    nspans: u64,
+    span_fp: crate::rng::Fnv,
+    first_spans: String,
+}
+/// positions handed out by `Span::dummy_with_cmt()` start here (swc_common::syntax_pos::DUMMY_RESERVE)
+const DUMMY_RESERVE: u32 = u32::MAX - (1 << 16);
+impl Sig {
+    fn span(&mut self, s: &Span) {
+        let txt = if s.lo.0 == 0 && s.hi.0 == 0 {
+            "d".to_string()
+        } else if s.lo.0 >= DUMMY_RESERVE {
+            "p".to_string()
+        } else if s.lo.0 >= self.file.0 && s.hi.0 <= self.file.1 && s.lo.0 <= s.hi.0 {
+            format!("{}-{}", s.lo.0 - self.file.0, s.hi.0 - self.file.0)
+        } else {
+            "F".to_string()
+        };
+        self.nspans += 1;
+        self.span_fp.str(&txt);
+        self.span_fp.bytes(b",");
+        if self.nspans <= 400 {
+            self.first_spans.push_str(&txt);
+            self.first_spans.push(' ');
+        }
+    }
 }
 impl Visit for Sig {
+    fn visit_span(&mut self, s: &Span) {
+        self.span(s);
+    }
     fn visit_ident(&mut self, i: &Ident) {
+        self.span(&i.span);
         let k = self.ctxts.iter().position(|x| *x == i.ctxt).unwrap_or_else(|| {
             self.ctxts.push(i.ctxt);
             self.ctxts.len() - 1
@@ -143,7 +178,7 @@ pub fn run_file(env: Env<'_>, src: &str, ts: bool, script: bool, opts: Options, 
     let comments = env.comments;
     let cm = env.cm;
 
-    let r = HANDLER.set(handler, || -> Result<(String, String), ParseError> {
+    let r = HANDLER.set(handler, || -> Result<(String, String, String), ParseError> {
         seams::set_phase(Phase::Parse);
         let syntax = if ts {
             Syntax::Typescript(TsSyntax { tsx: true, ..Default::default() })
@@ -178,7 +213,7 @@ pub fn run_file(env: Env<'_>, src: &str, ts: bool, script: bool, opts: Options, 
         seams::yield_point("phase.transformed");
 
         seams::set_phase(Phase::Print);
-        let mut sig = Sig::default();
+        let mut sig = Sig { file: (fm.start_pos.0, fm.end_pos.0), ..Default::default() };
         program.visit_with(&mut sig);
         let mut buf = vec![];
         {
@@ -190,9 +225,9 @@ pub fn run_file(env: Env<'_>, src: &str, ts: bool, script: bool, opts: Options, 
             };
             e.emit_program(&program).expect("codegen writes to a Vec");
         }
-        Ok((String::from_utf8(buf).expect("codegen emits utf-8"), sig.out))
+        Ok((String::from_utf8(buf).expect("codegen emits utf-8"), sig.out, format!("{}:{:016x} {}", sig.nspans, sig.span_fp.0, sig.first_spans.trim_end())))
     });
-    let (code, sig) = r?;
+    let (code, sig, spans) = r?;
     let d = diags.lock().unwrap().clone();
-    Ok(Output { code, sig, diags: d })
+    Ok(Output { code, sig, diags: d, spans })
 }
